@@ -235,6 +235,9 @@ FUNC_ALIASES = {
     "builtins.list": "list", "builtins.range": "range", "builtins.sorted": "sorted",
     "sklearn.utils.validation.check_array": "check_array",
     "spec.relu": "relu", "spec.ind": "ind",
+    # in-repo layout helpers (value-preserving conversions; their shape behaviour is D-SHAPE's business)
+    "fairlearn.utils._input_manipulations:_convert_to_ndarray_and_squeeze": "asarray",
+    "fairlearn.utils._input_manipulations:_convert_to_ndarray_1d": "asarray",
     "pandas.Series": "Series", "pandas.DataFrame": "DataFrame", "pandas.concat": "concat",
 }
 METHOD_ALIASES = {
